@@ -6,8 +6,12 @@ contains ``DefaultNamingStrategy``, and the production entry point
 directory with seeded pre-existing content; the chosen ``(dir, name)`` is judged
 by R-contain / R-name / R-fresh (see ``_judge``).
 
-Workload B (schedules) is added later to this module: ``cases()`` emits dicts
-with a ``'kind'`` key and ``run_case`` dispatches on it.
+Workload A2 (kind=history): names that are long in BYTES (200-300+ bytes of UTF-8,
+1- to 4-byte characters, families sharing a long prefix) are chosen one after the
+other in one directory, every chosen path being created before the next choice.
+
+Workload B (schedules) lives in vf/c09sched.py: ``cases()`` emits dicts with a
+``'kind'`` key and ``run_case`` dispatches on it.
 """
 from __future__ import annotations
 
@@ -39,7 +43,18 @@ RULE = ("kind=paths: a case is a batch of (remote path, directory pre-content) p
         "(contain); name not in {'', '.', '..'} and free of \\ and / (name); for chains in which NumberDuplicate "
         "runs last, the path does not exist (lexists) when returned (fresh). Non-trivial: the path has >= 2 "
         "components or the pre-content contains the candidate name; distinct = (chain, kinds of the last 3 "
-        "components + count, separator class, pre-content class).")
+        "components + count, separator class, pre-content class). Component kind 'longbytes' = names of 220-320 bytes "
+        "in UTF-8 (ASCII, 2-, 3- and 4-byte characters, with and without extension, exactly 255 / 256 bytes); "
+        "pre-content class 'trunc-exists' = files named like byte/character cuts of the candidate (and of its first "
+        "numbered duplicate) at 200-255, with and without the extension kept. kind=history: 1-4 remote paths whose "
+        "names come from one family of long-in-bytes names sharing a long prefix (same name again, a sibling, mixed; "
+        "enumerated families first, then seeded: one of 8 characters repeated to 200-300 bytes, 3-4 tails/extensions), "
+        "chosen one after the other in one directory through each of the 5 chains that end in NumberDuplicate (own "
+        "directory per chain; production chains through calculate_download_path); every choice is judged as above and "
+        "then created with open('xb') as the download would (an OSError of the OS, e.g. ENAMETOOLONG, creates nothing), "
+        "so a later choice meets the earlier files. Non-trivial history: >= 2 steps or interacting pre-content; "
+        "distinct = (chain, mode, byte-length/char-width/extension classes of the names, steps, pre-content class, "
+        "separator class).")
 ASSUMPTIONS = [
     "freshness ('does not exist yet when chosen') is demanded only of chains in which NumberDuplicateStrategy runs "
     "last (D>N, D>K>N, K>D>N, both production chains); a chain without it, or with a renaming strategy after it, "
@@ -57,20 +72,27 @@ ASSUMPTIONS = [
     "creates it after choosing the path) is part of 'all pre-existing contents'",
     "Linux path semantics (os.sep == '/'); a backslash in a returned name is still a violation because "
     "split_remote_path treats it as a separator",
+    "a name the file system cannot hold (> NAME_MAX bytes) may be handed out unchanged (nothing can be created "
+    "there, so nothing is clobbered) or refused with an OSError (counted rejected_overlong); what is never allowed is "
+    "that the path handed out exists already, also when that path is a shortened form of the peer's name",
 ]
 MIN_OBS = {
-    'quick': {'paths_judged': 15000, 'contain_checks': 15000, 'fresh_checks': 5000, 'fresh_renamed': 800},
-    'thorough': {'paths_judged': 700000, 'contain_checks': 700000, 'fresh_checks': 250000, 'fresh_renamed': 40000},
+    'quick': {'paths_judged': 15000, 'contain_checks': 15000, 'fresh_checks': 5000, 'fresh_renamed': 800,
+              'history_steps_judged': 2000, 'long_name_choices_judged': 1800, 'history_files_created': 800},
+    'thorough': {'paths_judged': 700000, 'contain_checks': 700000, 'fresh_checks': 250000, 'fresh_renamed': 40000,
+                 'history_steps_judged': 300000, 'long_name_choices_judged': 250000, 'history_files_created': 100000},
 }
 SHARD_TIMEOUT = {'quick': 300, 'thorough': 3000}
 WHAT_FAILS = {
     'contain:': 'the chosen local path is not strictly inside the download directory',
     'name:': "the chosen file name is '', '.', '..' or contains a path separator",
-    'fresh:': 'a chain ending in NumberDuplicateStrategy chose a path that already exists',
+    'fresh:': 'a chain ending in NumberDuplicateStrategy chose a path that already exists (…:earlier-download = '
+              'the file an earlier download of this history was given; …:long-* = the name is long in bytes)',
     'exception:': 'no local path is chosen: the strategies raise for a remote path that has a file name',
 }
 
 PAIRS_PER_BATCH = 16
+HISTS_PER_BATCH = 8
 
 # ---------------------------------------------------------------------------
 # chains
@@ -101,6 +123,20 @@ def _build_chain(code: str) -> list:
 
 LONG200 = 'L' * 196 + '.mp3'
 LONG300 = 'M' * 296 + '.ogg'
+# Names that are long in BYTES (UTF-8): around and beyond the usual 255-byte limit of a
+# single file name, built from 1-, 2-, 3- and 4-byte characters, with and without an
+# extension; each tuple is a family of names that share a long common prefix.
+LONG_FAMILIES = [
+    ('é' * 150 + ' - live.mp3', 'é' * 150 + ' - studio.mp3', 'é' * 150 + ' - live.flac'),   # 311+ bytes
+    ('A' * 260 + '-one.mp3', 'A' * 260 + '-two.mp3'),                                      # 268 bytes, ASCII
+    ('漢' * 90 + '.flac', '漢' * 90 + '字.flac', '漢' * 90),                                 # 270+ bytes, 3-byte
+    ('𝄞' * 70 + 'a.ogg', '𝄞' * 70 + 'b.ogg'),                                              # 285 bytes, 4-byte
+    ('é' * 140, 'é' * 140 + 'x'),                                                          # 280 bytes, no extension
+    ('B' * 252 + '.mp3', 'B' * 252 + 'b.mp3'),                                             # 256 / 257 bytes
+    ('B' * 251 + '.mp3',),                                                                 # 255 bytes exactly
+    ('é' * 124 + '.mp3',),                                                                 # 252 bytes; ' (1)' makes 256
+    ('C' * 216 + '.mp3', 'C' * 216 + ' (1).mp3'),                                          # 220 bytes: fits, numbered too
+]
 TOKENS = {
     'dotdot': ['..'],
     'dot': ['.'],
@@ -108,6 +144,7 @@ TOKENS = {
     'drive': ['C:', 'c:', 'Z:', 'C:stuff'],
     'plain': ['track.mp3', 'music', 'album', 'song.flac', 'readme', 'a.b.mp3', '.hidden', 'x', 'y.mp3'],
     'long': [LONG200, LONG300, 'd' * 200],
+    'longbytes': [fam[0] for fam in LONG_FAMILIES],
     'nonascii': ['é.mp3', '漢字.flac', 'Ünïcode', 'файл.ogg'],
     'trail-space': ['track.mp3 ', 'dir ', ' '],
     'trail-dot': ['track.', 'dir.', '...'],
@@ -116,7 +153,7 @@ TOKENS = {
 }
 KINDS = list(TOKENS)
 _TOKEN_KIND = {tok: kind for kind, toks in TOKENS.items() for tok in toks}
-_KIND_WEIGHTS = {'dotdot': 4, 'dot': 3, 'alias': 2, 'drive': 2, 'plain': 8, 'long': 1, 'nonascii': 2,
+_KIND_WEIGHTS = {'dotdot': 4, 'dot': 3, 'alias': 2, 'drive': 2, 'plain': 8, 'long': 1, 'longbytes': 2, 'nonascii': 2,
                  'trail-space': 2, 'trail-dot': 2, 'meta': 4, 'numbered': 2, '': 3}
 NAMELESS = ['', '\\', '//', '\\\\', '/\\/', '\\/\\\\']
 _SEPS_BS = ['\\', '\\', '\\', '\\\\', '\\\\\\']
@@ -126,7 +163,7 @@ _META_CHARS = set('.^$*+?{}[]|()\\')
 _REGEX_META = _META_CHARS - {'.', '\\'}
 
 CONTENT_CLASSES = ['none', 'noise', 'plain-exists', 'dir-exists', 'numbered-gap', 'numbered-all-taken',
-                   'zero-padded', 'bak-suffix', 'numbered-no-plain', 'sibling-ext', 'dl-missing']
+                   'zero-padded', 'bak-suffix', 'numbered-no-plain', 'sibling-ext', 'dl-missing', 'trunc-exists']
 _GAP_VARIANTS = [['1', '3'], ['2', '3'], ['1', '2', '4'], ['3'], ['1', '2', '3', '5', '6'], ['2']]
 _PAD_VARIANTS = [['01'], ['01', '2'], ['1', '02'], ['001', '1'], ['01', '02', '03']]
 _NOISE = ['a+b (1).mp3', '[x].mp3', '(y).mp3', 'x (1).mp3', 'y (1).mp3', 'aab (1).mp3', 'other.txt',
@@ -160,6 +197,8 @@ def _kind_of(comp: str) -> str:
         return 'alias'
     if re.match(r'[a-zA-Z]:', comp):
         return 'drive'
+    if len(comp.encode('utf-8', 'replace')) > 200 and (len(comp) < 150 or any(ord(c) > 127 for c in comp)):
+        return 'longbytes'
     if len(comp) >= 150:
         return 'long'
     if any(ord(c) > 127 for c in comp):
@@ -208,6 +247,12 @@ def _enum_pairs() -> list[tuple[str, str]]:
     for tok in TOKENS['meta'] + TOKENS['numbered'] + TOKENS['plain']:   # every meta/numbered token, taken names
         for cls in ('numbered-all-taken', 'numbered-gap', 'plain-exists'):
             out.append((tok, cls))
+    for fam in LONG_FAMILIES:                            # every long-in-bytes name x the classes that can bite
+        for tok in fam:
+            for cls in ('trunc-exists', 'plain-exists', 'numbered-all-taken', 'none'):
+                out.append((tok, cls))
+            out.append(('@@abcde\\Music\\' + tok, 'trunc-exists'))
+            out.append(('music\\' + tok, 'trunc-exists'))
     for p in NAMELESS:
         out.append((p, 'none'))
     out.append(('\\\\music\\\\track.mp3\\\\', 'plain-exists'))
@@ -249,6 +294,31 @@ def _numbered(name: str, idx: str, suffix: str = '') -> str:
     return f'{stem} ({idx}){ext}{suffix}'
 
 
+def _cut(b: bytes, limit: int) -> str:
+    return b[:max(limit, 0)].decode('utf-8', errors='ignore')
+
+
+def _trunc_variants(name: str) -> list[str]:
+    """What a shortening of ``name`` to a file-system friendly length could produce
+    (byte and character cuts, with and without keeping the extension, also of the
+    first numbered duplicate). For a name that needs no shortening: the name."""
+    out: list[str] = []
+    for nth, base in enumerate((name, _numbered(name, '1'))):
+        stem, ext = os.path.splitext(base)
+        bb, sb, eb = base.encode('utf-8', 'replace'), stem.encode('utf-8', 'replace'), ext.encode('utf-8', 'replace')
+        for limit in ((255, 254, 250, 240, 200) if nth == 0 else (255,)):
+            out.append(_cut(bb, limit))                          # plain cut
+            out.append(_cut(sb, limit - len(eb)) + ext)          # cut, extension kept
+        out.append(base[:255])
+        out.append(stem[:max(255 - len(ext), 0)] + ext)
+    seen, res = set(), []
+    for v in out:
+        if v not in seen and v not in ('', '.', '..'):
+            seen.add(v)
+            res.append(v)
+    return res
+
+
 def _content_entries(cls: str, name: str, rng: random.Random) -> list[tuple[str, str]]:
     """[(entry name, 'f'|'d')] to create inside one directory for candidate ``name``."""
     if cls in ('none', 'dl-missing') or not name:
@@ -279,6 +349,8 @@ def _content_entries(cls: str, name: str, rng: random.Random) -> list[tuple[str,
             ents.append((_numbered(name, '3'), 'f'))
     elif cls == 'numbered-no-plain':
         ents += [(_numbered(name, str(i)), 'f') for i in range(1, rng.randint(1, 3) + 1)]
+    elif cls == 'trunc-exists':
+        ents += [(v, 'f') for v in _trunc_variants(name)]
     elif cls == 'sibling-ext':
         stem, _ext = os.path.splitext(name)
         ents.append((name, 'f'))
@@ -400,8 +472,11 @@ def _judge(res: dict, chain: str, remote_path: str, kinds: list[str], cls: str, 
         if comps and name != comps[-1]:
             runner.add_obs(res, 'fresh_renamed')
         if os.path.lexists(full):
-            # label: a candidate name with regex metacharacters is its own mechanism class
-            existing = 'regex-meta' if (comps and set(comps[-1]) & _REGEX_META) else cls
+            # label: a candidate name that is long in bytes, or has regex metacharacters, is its own mechanism class
+            if comps and len(comps[-1].encode('utf-8', 'replace')) > 200:
+                existing = 'long-' + cls
+            else:
+                existing = 'regex-meta' if (comps and set(comps[-1]) & _REGEX_META) else cls
             typ = 'dir' if os.path.isdir(full) else 'file'
             runner.violation(res, f'fresh:{chain}:{existing}', exists_as=typ,
                              listing=sorted(os.listdir(d))[:40] if os.path.isdir(d) else None, **ctx)
@@ -494,6 +569,8 @@ def _run_paths(params: dict) -> dict:
                     if nameless:
                         runner.add_obs(res, 'rejected_no_name')
                         runner.add_cover(res, 'rejected_with', type(exc).__name__)
+                    elif isinstance(exc, OSError) and _overlong(comps):
+                        runner.add_obs(res, 'rejected_overlong')     # OS limit: refusing the name is allowed
                     else:
                         runner.violation(res, f'exception:{type(exc).__name__}:{code}',
                                          message=str(exc)[:200], **ctx)
@@ -517,6 +594,178 @@ def _run_paths(params: dict) -> dict:
                                  'prod_default_chose': _rel_choice(mgrs, 'prod-default', rp, dl),
                                  'prod_DKN_chose': _rel_choice(mgrs, 'prod-DKN', rp, dl)}
             shutil.rmtree(pair_root, ignore_errors=True)
+    finally:
+        shutil.rmtree(root, ignore_errors=True)
+    res['evaluations'] = evaluations
+    return res
+
+
+# ---------------------------------------------------------------------------
+# workload A2: short download histories with names that are long in bytes
+
+NAME_MAX = 255
+_HIST_PREFIXES = ['', '@@abcde\\Music\\Album\\', 'music\\', 'C:\\music/', '@@abcde\\']
+_CONTROL_FAMILY = ('track.mp3', 'track.flac', 'track')
+
+
+def _overlong(comps: list[str]) -> bool:
+    return any(len(c.encode('utf-8', 'replace')) > NAME_MAX - 8 for c in comps)
+
+
+def _gen_family(rng: random.Random) -> tuple[str, ...]:
+    """A seeded family: one character repeated up to a byte length in 200..300, a few
+    different tails and extensions behind the same long prefix."""
+    ch = rng.choice(['a', 'Z', 'é', 'ü', '漢', 'ж', '𝄞', '😀'])
+    width = len(ch.encode('utf-8'))
+    target = rng.randint(200, 300)
+    ext = rng.choice(['', '.mp3', '.flac', '.ogg', '.é'])
+    n = max(1, (target - len(ext.encode('utf-8'))) // width)
+    stem = ch * n
+    tails = rng.sample(['', 'a', 'b', ' - live', ' - studio', ' (1)', '字'], 3)
+    fam = [stem + t + ext for t in tails]
+    if ext and rng.random() < 0.5:
+        fam.append(stem + tails[0] + rng.choice(['.mp3', '.wav', '']))
+    return tuple(fam)
+
+
+def _hist_enum() -> list[dict]:
+    out = []
+    for fam in LONG_FAMILIES + [_CONTROL_FAMILY]:
+        for prefix in ('', '@@abcde\\Music\\Album\\', 'music\\'):
+            out.append({'steps': [prefix + fam[0], prefix + fam[0]], 'content': 'none', 'mode': 'same'})
+            if len(fam) > 1:
+                out.append({'steps': [prefix + fam[0], prefix + fam[1], prefix + fam[-1]], 'content': 'none',
+                            'mode': 'sibling'})
+        out.append({'steps': [fam[0]], 'content': 'trunc-exists', 'mode': 'single'})
+        out.append({'steps': [fam[0], fam[0], fam[0]], 'content': 'plain-exists', 'mode': 'same'})
+    return out
+
+
+_HIST_ENUM = _hist_enum()
+
+
+def _random_history(rng: random.Random) -> dict:
+    r = rng.random()
+    fam = rng.choice(LONG_FAMILIES) if r < 0.35 else (_CONTROL_FAMILY if r < 0.45 else _gen_family(rng))
+    mode = rng.choice(['same', 'same', 'sibling', 'mixed'])
+    nsteps = rng.choice([2, 2, 3, 4])
+    first = rng.choice(fam)
+    names = [first]
+    for _ in range(nsteps - 1):
+        if mode == 'same':
+            names.append(first)
+        elif mode == 'sibling':
+            names.append(rng.choice([n for n in fam if n != names[-1]] or [first]))
+        else:
+            names.append(rng.choice(fam))
+    prefix = rng.choice(_HIST_PREFIXES)
+    steps = []
+    for n in names:
+        pre = prefix if rng.random() < 0.85 else rng.choice(_HIST_PREFIXES)
+        steps.append(pre + n)
+    return {'steps': steps, 'mode': mode,
+            'content': rng.choice(['none', 'none', 'trunc-exists', 'noise', 'plain-exists', 'numbered-all-taken'])}
+
+
+def _byte_class(name: str) -> str:
+    nb = len(name.encode('utf-8', 'replace'))
+    bucket = ('<=200' if nb <= 200 else '201-251' if nb <= 251 else '252-255' if nb <= 255
+              else '256-300' if nb <= 300 else '>300')
+    width = max((len(c.encode('utf-8', 'replace')) for c in name), default=1)
+    return f"{bucket}/w{width}/{'ext' if os.path.splitext(name)[1] else 'noext'}"
+
+
+def _run_history(params: dict) -> dict:
+    """Each history: 1-4 remote paths chosen one after the other in the same download
+    directory; every chosen path is judged like in kind=paths and then *created* (as
+    the download would), so that the next choice meets what the earlier ones left.
+    Every chain in which the duplicate strategy runs last gets its own directory."""
+    from aioslsk import naming
+
+    res = runner.new_result(params['case'])
+    if params.get('explicit'):
+        hists = [(i, h) for i, h in enumerate(params['explicit'])]
+    else:
+        rng = random.Random(f"{params['seed']}:{ID}:hist:{params['case']}")
+        hists = []
+        for j in range(params['n']):
+            g = params['start'] + j
+            hists.append((g, _HIST_ENUM[g] if g < len(_HIST_ENUM) else _random_history(rng)))
+    chains = {code: _build_chain(code) for code in _CHAIN_ORDERS}
+    root = tempfile.mkdtemp(prefix='vf-c09h-')
+    evaluations = 0
+    try:
+        mgrs = _make_managers(os.path.join(root, 'unset'))
+        for g, hist in hists:
+            steps, cls, mode = hist['steps'], hist.get('content', 'none'), hist.get('mode', 'explicit')
+            first_name = (_own_split(steps[0]) or [''])[-1]
+            sig_names = ','.join(sorted({_byte_class((_own_split(st) or [''])[-1]) for st in steps}))
+            runner.add_cover(res, 'history_modes', mode)
+            runner.add_cover(res, 'history_name_classes', sig_names)
+            for code in sorted(FRESH_CHAINS):
+                prng = random.Random(f"{params['seed']}:{ID}:hist:{g}:{steps[0]}")
+                pair_root = os.path.join(root, f'h{g}-{ALL_CHAINS.index(code)}')
+                os.makedirs(pair_root)
+                dl, created, where = _build_tree(pair_root, steps[0], cls, prng)
+                real_root = os.path.realpath(pair_root)
+                made: list[str] = []
+                trail = []
+                runner.add_obs(res, 'histories')
+                for k, rp in enumerate(steps):
+                    evaluations += 1
+                    runner.add_obs(res, 'subcases')
+                    comps = _own_split(rp)
+                    kinds = [_kind_of(c) for c in comps]
+                    ctx = {'remote_path': _abbr(rp), 'chain': code, 'content': cls, 'content_where': where,
+                           'pre_content': [_abbr(c) for c in created[:16]], 'download_dir': 'outer/dl',
+                           'history': [_abbr(x) for x in steps], 'step': k, 'earlier_choices': list(trail)}
+                    try:
+                        if code in mgrs:
+                            mgr, settings = mgrs[code]
+                            settings.shares.download = dl
+                            out = mgr.calculate_download_path(rp)
+                        else:
+                            out = naming.chain_strategies(chains[code], rp, dl)
+                    except Exception as exc:  # noqa  (code under test)
+                        if isinstance(exc, OSError) and _overlong(comps):
+                            runner.add_obs(res, 'rejected_overlong')
+                            trail.append('rejected:' + type(exc).__name__)
+                        else:
+                            runner.violation(res, f'exception:{type(exc).__name__}:{code}', message=str(exc)[:200], **ctx)
+                            runner.add_obs(res, 'exceptions_on_named_paths')
+                        continue
+                    ok_pair = isinstance(out, tuple) and len(out) == 2 and all(isinstance(x, str) for x in out)
+                    ctx['returned'] = [_abbr(_show(out[0], dl)), _abbr(out[1])] if ok_pair else None
+                    full = os.path.join(out[0], out[1]) if ok_pair else None
+                    # which kind of existing entry a stale choice would hit
+                    label = 'earlier-download' if full in made else cls
+                    runner.add_obs(res, 'history_steps_judged')
+                    if ok_pair and len(out[1].encode('utf-8', 'replace')) > 200:
+                        runner.add_obs(res, 'long_name_choices_judged')
+                    _judge(res, code, rp, kinds, label, dl, out, ctx)
+                    trail.append(ctx['returned'])
+                    if not ok_pair or out[1] in ('', '.', '..'):
+                        continue
+                    # the download writes to the chosen location (never outside the scratch tree)
+                    if os.path.commonpath([os.path.realpath(full), real_root]) != real_root:
+                        continue
+                    try:
+                        os.makedirs(out[0], exist_ok=True)
+                        with open(full, 'xb') as fh:
+                            fh.write(b'download %d' % k)
+                        made.append(full)
+                        runner.add_obs(res, 'history_files_created')
+                    except FileExistsError:
+                        pass                                   # reported by the freshness rule above
+                    except OSError:
+                        runner.add_obs(res, 'history_creation_refused_by_os')   # e.g. ENAMETOOLONG: nothing created
+                if len(steps) >= 2 or cls not in ('none', 'noise'):
+                    res['csigs'].append(f"hist|{code}|{mode}|{sig_names}|{len(steps)}|{cls}|"
+                                        f"{_sep_class(steps[0])}")
+                if res['sample'] is None and len(steps) >= 2 and code == 'prod-default':
+                    res['sample'] = {'kind': 'history', 'chain': code, 'steps': [_abbr(x) for x in steps],
+                                     'content_class': cls, 'choices_in_order': trail}
+                shutil.rmtree(pair_root, ignore_errors=True)
     finally:
         shutil.rmtree(root, ignore_errors=True)
     res['evaluations'] = evaluations
@@ -579,6 +828,12 @@ def cases(tier: str, seed: int) -> list[dict]:
     out: list[dict] = []
     for i in range(n_batches):
         out.append({'kind': 'paths', 'case': i, 'seed': seed, 'start': i * PAIRS_PER_BATCH, 'n': PAIRS_PER_BATCH})
+    # workload A2: histories of long-in-bytes names, each choice materialised before the next
+    n_hist = 60 if tier == 'quick' else 4000
+    n_hist = max(n_hist, -(-len(_HIST_ENUM) // HISTS_PER_BATCH))
+    for i in range(n_hist):
+        out.append({'kind': 'history', 'case': len(out), 'seed': seed, 'start': i * HISTS_PER_BATCH,
+                    'n': HISTS_PER_BATCH})
     # workload B: interleavings of 2-3 downloads of equally named files (vf/c09sched.py)
     n_sched = 600 if tier == 'quick' else 40000
     for i in range(n_sched):
@@ -590,6 +845,8 @@ def run_case(params: dict) -> dict:
     kind = params.get('kind', 'paths')
     if kind == 'paths':
         return _run_paths(params)
+    if kind == 'history':
+        return _run_history(params)
     if kind == 'schedule':
         return _run_schedule(params)
     raise ValueError(f'unknown C09 case kind {kind!r}')
